@@ -17,9 +17,10 @@ var eleShapes = []thr{{}, {Q: 0.5}, {P: 1.5}, {Q: 0.5, P: 1.5}, {P: 0.5, V: 1.5}
 type distFn struct {
 	A, B    float64
 	Default bool
+	Sparse  bool // keys whose value is zero are left out of the request
 }
 
-var eleDists = []distFn{{-0.15, 0.3, true}, {-0.15, 0.3, false}, {0, 0.125, false}, {-0.125, 0.25, false}}
+var eleDists = []distFn{{-0.15, 0.3, true, false}, {-0.15, 0.3, false, false}, {0, 0.125, false, false}, {-0.125, 0.25, false, false}, {0, 0.125, false, true}}
 
 type eleCfg struct {
 	N     int
@@ -77,7 +78,15 @@ func eleRequest(cfg eleCfg) M {
 	}
 	mp := M{"electreCriteria": ec}
 	if !cfg.Dist.Default {
-		mp["electreDistillation"] = M{"a": cfg.Dist.A, "b": cfg.Dist.B}
+		d := M{"a": cfg.Dist.A, "b": cfg.Dist.B}
+		if cfg.Dist.Sparse {
+			for k, v := range d {
+				if asF(v) == 0 {
+					delete(d, k)
+				}
+			}
+		}
+		mp["electreDistillation"] = d
 	}
 	return M{"preferenceFunction": "electreIII", "knownAlternatives": ka, "choseToMake": strs(chose), "criteria": crits, "methodParameters": mp}
 }
@@ -307,7 +316,7 @@ func refFromSigma(ids []string, sigma [][]float64, d distFn) eleExpect {
 func eleDistFromReq(req M) distFn {
 	dm := asM(asM(req["methodParameters"])["electreDistillation"])
 	if dm == nil {
-		return distFn{-0.15, 0.3, true}
+		return distFn{A: -0.15, B: 0.3, Default: true}
 	}
 	return distFn{A: asF(dm["a"]), B: asF(dm["b"])}
 }
